@@ -551,11 +551,35 @@ func TestReplay(t *testing.T) {
 	ex := newExecutor()
 	exGap := newExecutor()
 	exGap.SetSupportedProtocolVersions(kmip.V1_0, kmip.V1_4)
+	exSplit := newExecutor()
+	exSplit.Use(func(next kmipserver.Next, ctx context.Context, msg *kmip.RequestMessage) (*kmip.ResponseMessage, error) {
+		if len(msg.BatchItem) < 2 {
+			return next(ctx, msg)
+		}
+		part := func(items []kmip.RequestBatchItem) (*kmip.ResponseMessage, error) {
+			m := *msg
+			m.BatchItem = items
+			m.Header.BatchCount = int32(len(items))
+			return next(ctx, &m)
+		}
+		r1, err := part(msg.BatchItem[:1])
+		if err != nil {
+			return r1, err
+		}
+		r2, err := part(msg.BatchItem[1:])
+		if err != nil {
+			return r2, err
+		}
+		out := *r1
+		out.BatchItem = append(append([]kmip.ResponseBatchItem{}, r1.BatchItem...), r2.BatchItem...)
+		out.Header.BatchCount = int32(len(out.BatchItem))
+		return &out, nil
+	})
 	mism := 0
 	for n, c := range cases {
 		// batch semantics are a function of the request message: the same case with a live context, with a context that is already
 		// cancelled when the request arrives (the client has gone away) and with one cancelled by the first handler that runs
-		for _, ctxMode := range []string{"live", "cancelled", "cancelled-by-handler", "live+ignorable-extensions", "live+versions-with-a-gap", "live+order-false", "live+order-true", "live+omitted-ids", "live+omitted-ids-message-sent-again"} {
+		for _, ctxMode := range []string{"live", "cancelled", "cancelled-by-handler", "live+ignorable-extensions", "live+versions-with-a-gap", "live+order-false", "live+order-true", "live+omitted-ids", "live+omitted-ids-message-sent-again", "live+split-by-a-message-middleware"} {
 			// items that omit their identifiers (they rely on the placeholder), told apart by their payload types; and the same
 			// message object handed to the executor a second time: a request is read, not written - the second execution is a
 			// request of its own and sees nothing of the first
@@ -581,6 +605,15 @@ func TestReplay(t *testing.T) {
 			ex := ex
 			if gapConfig {
 				ex = exGap
+			}
+			if ctxMode == "live+split-by-a-message-middleware" {
+				// an application's message middleware hands the batch to the executor in two parts (the first item, then the others,
+				// each with a header of its own count) and puts the answers together: still one request - one placeholder scope.
+				// (Only for requests whose semantics do not depend on the split: no Stop, nothing rejected as a whole.)
+				if len(c.Req.Items) < 2 || c.Req.Opt == "Stop" || c.Req.Opt == "Undo" || c.Req.Ver != "supported" || c.Req.Count != "match" {
+					continue
+				}
+				ex = exSplit
 			}
 			rid := n + 1
 			parent := context.Background()
